@@ -601,6 +601,23 @@ Proof.
     + tauto.
 Qed.
 
+(** The schedule has one entry per block, whatever the input. *)
+Lemma step_sched_length m i blk st :
+  length (st_sched (step m i blk st)) = length (st_sched st).
+Proof.
+  unfold step. rewrite fold_insert_sched, expire_spec. cbn [st_sched]. apply fold_move_length.
+Qed.
+
+Lemma run_sched_length m : forall blks i st,
+  length (st_sched (run m i blks st)) = length (st_sched st).
+Proof.
+  induction blks as [|b blks IH]; intros i st; [reflexivity|].
+  cbn [run]. rewrite IH. apply step_sched_length.
+Qed.
+
+Lemma schedule_length m ttls : length (schedule m ttls) = length ttls.
+Proof. unfold schedule. rewrite run_sched_length. cbn [init_state st_sched]. apply repeat_length. Qed.
+
 (** * The loop invariant *)
 Section Invariant.
   Variable m : nat.
